@@ -13,7 +13,8 @@ PROPERTY = 'C19'
 LEVEL = 'other'
 REQUIRED_THEOREMS = ['Properties.C19.' + n for n in ('result_dtype_eq_input', 'promote_assoc', 'fresh_constant_counterexample',
     'dot_two_precisions', 'dot_two_precisions_gamma', 'linear_two_precisions', 'affine_two_precisions', 'affine_inverse_two_precisions',
-    'affine_chain_two_precisions', 'composite_error', 'sum_log_error', 'leaky_relu_error', 'exp_error', 'exact_is_u_zero', 'two_precisions_example')]
+    'affine_chain_two_precisions', 'composite_error', 'sum_log_error', 'leaky_relu_error', 'exp_error', 'exact_is_u_zero', 'two_precisions_example',
+    'lu_two_precisions', 'flow_error', 'flow_two_precisions', 'flow_logdet_two_precisions', 'flow_two_precisions_example')]
 RULE = ("registry x regimes (fresh, normal: moderate magnitudes) x both directions: float32 implementation vs Float32 model, float64 twin vs Float model, "
         "float32 vs float64 implementation (tolerance 64*2^-24*(1+|v|)*exp(|logabsdet|)), result dtypes; distinct = (entry, regime, direction); non-trivial = not the identity")
 EXPLANATION = ("dtype-propagation theorem on a promotion-lattice model (Properties.C19); numeric clause: theorems in the standard model of floating-point arithmetic "
